@@ -39,6 +39,7 @@ PRIM = {
     '__mmask8': 'uint8_t', '__mmask16': 'uint16_t', '__mmask32': 'uint32_t', '__mmask64': 'uint64_t',
     '__uint128_t': 'unsigned __int128', '__int128_t': '__int128', 'unsigned': 'uint32_t',
     'long double': 'long double', 'std::nullptr_t': 'void*', 'nullptr_t': 'void*',
+    '_MM_CMPINT_ENUM': 'int32_t', '_MM_MANTISSA_SIGN_ENUM': 'int32_t', '_MM_MANTISSA_NORM_ENUM': 'int32_t', '_MM_PERM_ENUM': 'int32_t',
     '__m128i': 'm128', '__m128': 'm128', '__m128d': 'm128', '__m256i': 'm256', '__m256': 'm256', '__m256d': 'm256',
     '__m512i': 'm512', '__m512': 'm512', '__m512d': 'm512',
     '__m128i_u': 'm128', '__m256i_u': 'm256', '__m512i_u': 'm512', '__m128_u': 'm128', '__m128d_u': 'm128',
@@ -132,6 +133,8 @@ class Emitter:
             self.last_line = l['line']
 
     def index(self, n, par):
+        if 'inner' in n:
+            n['inner'] = [c for c in n['inner'] if not c.get('kind', '').endswith('Comment')]
         if 'loc' in n:
             self._loc(n['loc'])
         k = n.get('kind')
@@ -250,6 +253,12 @@ class Emitter:
                 self.need_struct(base)
                 return self.structs[base][0][1]
             raise Abort('nested type ' + t)
+        m = re.match(r'^std::array<(.+), ?(\d+)U?L?>::(const_pointer|pointer|value_type|const_reference|reference|size_type)$', t)
+        if m:
+            el = self.ctype_str(m.group(1))
+            w = m.group(3)
+            return {'const_pointer': el + '*', 'pointer': el + '*', 'value_type': el, 'const_reference': el + '*',
+                    'reference': el + '*', 'size_type': 'size_t'}[w]
         m = re.match(r'^std::array<(.+), ?(\d+)U?L?>$', t)
         if m:
             el = self.ctype_str(m.group(1))
@@ -269,6 +278,23 @@ class Emitter:
             nm = 'Alloc_%s_%s' % (SCAL.get(el, re.sub(r'\W', '_', el)), m.group(2))
             self.structs.setdefault(nm, [('_empty', 'char')])
             return nm
+        own = self.cur.get('owner') if self.cur else None
+        if own:
+            mo = re.match(r'^(Vec|Mask)_(\w+?)_(\d+)$', own)
+            if mo:
+                inv = {v: k for k, v in SCAL.items()}
+                if t == 'scalar':
+                    return inv[mo.group(2)]
+                if t == 'primitive':
+                    self.need_struct(own)
+                    return self.structs[own][0][1]
+                if t == 'mask':
+                    return self.ctype_str('Vector_mask<%s, %s>' % (inv[mo.group(2)], mo.group(3)))
+                if t in ('Vector', 'Vector_mask') and ((t == 'Vector') == (mo.group(1) == 'Vec')):
+                    return own
+                t2 = re.sub(r'\bwidth\b', mo.group(3), re.sub(r'\bscalar\b', inv[mo.group(2)], t))
+                if t2 != t:
+                    return self.ctype_str(t2, register)
         if t in self.aliases and self.aliases[t] and self.aliases[t] != t:
             return self.ctype_str(self.aliases[t])
         if t.startswith('std::') and t[5:] in PRIM:
@@ -436,17 +462,24 @@ class Emitter:
         return self.E(a)
 
     def addr(self, n):
-        """address of an object expression; prvalues go through a function-level temporary
-        assigned in a comma expression (evaluation order and laziness preserved)."""
-        s = self.strip(n)
-        if n.get('valueCategory') == 'lvalue' or s.get('valueCategory') == 'lvalue' and n.get('kind') in (
-                'MaterializeTemporaryExpr',) and False:
+        """address of an object expression; prvalues (materialised temporaries) go through a function-level
+        temporary assigned in a comma expression, so evaluation order and laziness are preserved."""
+        x = n
+        while True:
+            k = x.get('kind')
+            if k == 'MaterializeTemporaryExpr':
+                break
+            if k in ('ParenExpr', 'ExprWithCleanups', 'ConstantExpr', 'SubstNonTypeTemplateParmExpr', 'CXXBindTemporaryExpr') and x.get('inner'):
+                x = x['inner'][-1]
+                continue
+            if k == 'ImplicitCastExpr' and x.get('castKind') in ('NoOp', 'DerivedToBase', 'UncheckedDerivedToBase') and x.get('inner'):
+                x = x['inner'][-1]
+                continue
+            break
+        if x.get('kind') != 'MaterializeTemporaryExpr' and x.get('valueCategory') == 'lvalue':
             return '(&%s)' % self.E(n)
-        if s.get('kind') == 'DeclRefExpr' or s.get('kind') == 'CXXThisExpr':
+        if x.get('kind') == 'CXXThisExpr':
             return '(&%s)' % self.E(n)
-        if n.get('valueCategory') in ('lvalue',):
-            return '(&%s)' % self.E(n)
-        # xvalue produced from an lvalue-ish thing (member of temporary etc.) or prvalue: temp
         T = self.ctype(n['type'])
         t = self.tmp(T)
         return '(%s = %s, &%s)' % (t, self.E(n), t)
@@ -554,7 +587,7 @@ class Emitter:
                 return '(*%s)' % nm if self.is_ref_t(rd['type']) else nm
             if rk == 'EnumConstantDecl':
                 ec = self.byid.get(rd['id'])
-                v = self.enum_value(ec)
+                v = self.enum_value(ec, rd.get('name'))
                 return '((%s)%s)' % (self.ctype(n['type']) if self.ctype(n['type']) in INT_BITS else 'int32_t', v)
             if rk == 'NonTypeTemplateParmDecl':
                 raise Abort('template parameter in body (pattern, not instantiation)')
@@ -641,9 +674,11 @@ class Emitter:
         ren = self.cur['rename'].get(rd['id'])
         return ren or ('v_' + nm if nm in C_RESERVED else nm)
 
-    def enum_value(self, ec):
+    def enum_value(self, ec, name=None):
         if ec is None:
-            raise Abort('enum constant not found')
+            if name in X86_ENUMS:
+                return str(X86_ENUMS[name])
+            raise Abort('enum constant not found: ' + str(name))
         for c in ec.get('inner', []):
             s = self.strip(c)
             if 'value' in s:
@@ -755,13 +790,15 @@ class Emitter:
         ot = self.ctype(objn['type'])
         base = ot.rstrip('*')
         if base.startswith('Arr_'):
-            obj = self.E(objn)
-            acc = '->' if (arrow or ot.endswith('*')) else '.'
+            if arrow or ot.endswith('*'):
+                obj = self.E(objn)
+                acc = '->'
+            else:
+                obj = '*' + self.addr(objn)
+                acc = '.'
             if name in ('operator[]', 'at') and len(args) == 1:
                 return '(%s)%s_M_elems[%s]' % (obj, acc, self.E(args[0]))
             if name == 'data' and not args:
-                if objn.get('valueCategory') != 'lvalue' and self.strip(objn).get('kind') != 'DeclRefExpr':
-                    raise Abort('data() on temporary array')
                 return '(%s)%s_M_elems' % (obj, acc)
             if name == 'size' and not args:
                 m = re.match(r'^Arr_.*_(\d+)$', base)
@@ -987,10 +1024,10 @@ class Emitter:
         if k == 'ContinueStmt':
             return pad + 'continue;\n'
         if k == 'GotoStmt':
-            tgt = self.byid.get(n.get('targetLabelDeclId'))
+            tgt = self.cur['labels'].get(n.get('targetLabelDeclId'))
             if tgt is None:
                 raise Abort('goto target')
-            return pad + 'goto %s;\n' % tgt['name']
+            return pad + 'goto %s;\n' % tgt
         if k == 'LabelStmt':
             return pad[:-2] + '%s:\n' % n['name'] + self.S(inner[0], ind)
         if k == 'GCCAsmStmt':
@@ -1046,8 +1083,36 @@ class Emitter:
             return pad + self.decl(T, name) + ';\n'
         return pad + '%s = %s;\n' % (self.decl(T, name), self.E(e))
 
+    def src_text(self, n):
+        f = self.cur.get('file')
+        r = n.get('range', {})
+        b = r.get('begin', {})
+        e = r.get('end', {})
+        if 'expansionLoc' in b:
+            b = b['expansionLoc']
+        if 'expansionLoc' in e:
+            e = e['expansionLoc']
+        if f is None or 'offset' not in b or 'offset' not in e:
+            raise Abort('no source range for node')
+        with open(f, 'rb') as fh:
+            data = fh.read()
+        return data[b['offset']:e['offset'] + e.get('tokLen', 1)].decode('utf8', 'replace')
+
     def asm_stmt(self, n, pad):
-        raise Abort('inline asm (no rule yet)')
+        """inline asm: recognised by its template string; each becomes a call of an instruction contract"""
+        txt = self.src_text(n)
+        strs = re.findall(r'"((?:[^"\\]|\\.)*)"', txt)
+        ops = n.get('inner', [])
+        tmpl = ' '.join(strs)
+        if re.search(r'\bdivq? %\[v\]', tmpl) and len(ops) == 5:
+            quot, rem, v, lo, hi = ops
+            self.cur['externs'].add('model_divq')
+            return pad + '%s = model_divq(%s, %s, %s, &%s);\n' % (self.E(quot), self.E(hi), self.E(lo), self.E(v), self.E(rem))
+        if re.search(r'add %\[b\], %\[a\]', tmpl) and 'rcr %[a]' in tmpl and len(ops) == 2:
+            a, b = ops
+            self.cur['externs'].add('model_add_rcr64')
+            return pad + '%s = model_add_rcr64(%s, %s);\n' % (self.E(a), self.E(a), self.E(b))
+        raise Abort('inline asm without rule: ' + tmpl[:60])
 
     # ------------------------------------------------------------------ functions
     def emit_function(self, fd):
@@ -1084,12 +1149,28 @@ class Emitter:
     def _emit(self, fd, rec):
         kind = fd['kind']
         body = [c for c in fd.get('inner', []) if c.get('kind') == 'CompoundStmt'][0]
+        labels = {}
+
+        def scan(n):
+            if n.get('kind') == 'LabelStmt':
+                labels[n.get('declId')] = n.get('name')
+            for c in n.get('inner', []):
+                scan(c)
+        scan(body)
+        self.cur['labels'] = labels
+        self.cur['file'] = self.locs.get(fd['id'], (None, None))[0]
         params = self.params_of(fd)
         file, line = self.locs.get(fd['id'], (None, None))
         rec.update({'name': fd.get('name'), 'mangled': fd.get('mangledName'), 'file': file, 'line': line,
                     'cxx_type': fd['type']['qualType']})
         pinfo = []
         ps = []
+        opar = self.owner_of(fd)
+        if kind in ('CXXMethodDecl', 'CXXConstructorDecl', 'CXXConversionDecl') and opar is not None:
+            try:
+                self.cur['owner'] = self.rec_cname(opar)
+            except Abort:
+                pass
         for i, p in enumerate(params):
             pn = self.local_name(p)
             ct = self.ctype(p['type'])
@@ -1104,6 +1185,7 @@ class Emitter:
             if owner is None:
                 raise Abort('method of unmodelled record ' + str(par.get('name')))
             self.need_struct(owner)
+            self.cur['owner'] = owner
         # template arguments of function template specialisations
         targs = []
         for c in fd.get('inner', []):
@@ -1208,6 +1290,12 @@ class Emitter:
             funcs[cn] = r
         return {'structs': {k: v for k, v in self.structs.items() if v}, 'globals': glob, 'functions': funcs}
 
+
+# enumerators of clang's x86 intrinsic headers referenced by AVEL (values from avx512fintrin.h)
+X86_ENUMS = {'_MM_CMPINT_EQ': 0, '_MM_CMPINT_LT': 1, '_MM_CMPINT_LE': 2, '_MM_CMPINT_UNUSED': 3, '_MM_CMPINT_NE': 4,
+             '_MM_CMPINT_NLT': 5, '_MM_CMPINT_NLE': 6, '_MM_CMPINT_GE': 5, '_MM_CMPINT_GT': 6,
+             '_MM_MANT_NORM_1_2': 0, '_MM_MANT_NORM_p5_2': 1, '_MM_MANT_NORM_p5_1': 2, '_MM_MANT_NORM_p75_1p5': 3,
+             '_MM_MANT_SIGN_src': 0, '_MM_MANT_SIGN_zero': 1, '_MM_MANT_SIGN_nan': 2}
 
 C_RESERVED = {'restrict', 'inline', 'register', 'auto', 'main', 'm128', 'm256', 'm512', 'near', 'far'}
 
